@@ -20,7 +20,7 @@ from __future__ import annotations
 import importlib
 from typing import Any
 
-from . import core
+from . import core, modstate
 from .core import HarnessError, Violation, digest
 from .vloop import VLoop
 
@@ -42,6 +42,7 @@ class Execution:
 
 
 def run_once(modname: str, cfg: Any, prefix: list, expect_menus: list | None = None) -> Execution:
+    modstate.reset()
     loop = VLoop()
     x = Execution()
     x.choices, x.menus, x.ready_flags, x.trace = [], [], [], []
